@@ -222,6 +222,9 @@ def decorate(rng, prog):
                 h.setdefault("sv_attrs", []).append(rng.choice(INERT_VARIANT_ATTRS).replace("{n}", str(n)))
                 if rng.random() < 0.5:
                     h["sv_attrs_above"] = len(h["sv_attrs"])
+            if h["kind"] == "query" and rng.random() < 0.12:
+                # a second `returns(..)` forwarded to the variant: the derive reads the first one, the one sylvia wrote
+                h.setdefault("sv_attrs", []).append("returns(svmon::Pt)")
         for h in part["handlers"]:
             # forwarded argument attributes without any effect on the wire: the argument stays where it was declared
             if h["kind"] != "reply" and len(h["args"]) >= 2 and rng.random() < 0.15:
@@ -265,6 +268,12 @@ def decorate(rng, prog):
                 part["as_name"] = part["variant"]
             if same_trait:
                 part["trait"] = "Common"   # v1::common::Common and v2::common::Common: also the generated message types share their names
+    for part in ifaces:
+        if part["custom_mode"] == "empty" and rng.random() < 0.35:
+            # `: custom(msg)` / `custom(query)` on an interface of a contract that does not declare that custom type
+            fl = [f for f in ("msg", "query") if not prog["custom"][f] and rng.random() < 0.6]
+            if fl:
+                part["extra_flags"] = fl
     if rng.random() < 0.4:
         k = rng.choice([1, 2, 3])
         items = []
